@@ -101,15 +101,25 @@ impl Prop for C28 {
       })
       .collect();
     let original = *rng.pick(&["kept", "modified", "removed"]);
-    json!({"commits": commits, "delete": if rng.chance(1, 2) { json!(format!("d{}", 1 + rng.below(did))) } else { json!(null) },
+    json!({"names": rng.below(6), "commits": commits, "delete": if rng.chance(1, 2) { json!(format!("d{}", 1 + rng.below(did))) } else { json!(null) },
            "pending": rng.chance(1, 3), "original": original, "steps": ["search", "commit", "delete", "compact", "search"]})
   }
 
   fn run_case(&self, drv: &mut Driver, case: &Value, s: &mut Summary) {
     let case = if case.get("case").is_some() { &case["case"] } else { case };
     let base = scratch();
-    let orig = base.path().join("orig");
-    let copy = base.path().join("copy");
+    // directory naming matters for path handling: unrelated names, one a textual prefix of the
+    // other (backup restored next to the original), same name under another parent, nested
+    let (on, cn) = match case["names"].as_u64().unwrap_or(0) {
+      1 => ("idx.bak", "idx"),
+      2 => ("idx", "idx2"),
+      3 => ("a/idx", "b/idx"),
+      4 => ("idx_old", "idx"),
+      5 => ("data/idx", "data"),
+      _ => ("orig", "copy"),
+    };
+    let orig = base.path().join(on);
+    let copy = base.path().join(cn);
     let built = guarded(|| -> Result<Value, String> {
       let idx = idx::create(&orig, &schema(), false)?;
       for docs in case["commits"].as_array().cloned().unwrap_or_default() {
@@ -192,7 +202,7 @@ impl Prop for C28 {
     });
     uninstall(base.path());
     let evs = events.lock().unwrap().clone();
-    let outside: BTreeSet<String> = evs.iter().filter(|(_, p)| !p.starts_with(&copy)).map(|(op, p)| format!("{op} {}", p.display())).collect();
+    let outside: BTreeSet<String> = evs.iter().filter(|(_, p)| !p.starts_with(&copy) || (orig.starts_with(&copy) && p.starts_with(&orig))).map(|(op, p)| format!("{op} {}", p.display())).collect();
     let sub = case.clone();
     if !outside.is_empty() {
       let ex: Vec<&String> = outside.iter().take(6).collect();
